@@ -15,10 +15,12 @@
 From AQ Require Import lib.Base lib.Tok.
 
 (* ---------- futures ---------------------------------------------------------------------- *)
-Inductive fstate := FPending | FOk | FErr.   (* pending | result None | exception ConnectionError *)
+Inductive fstate := FPending | FOk | FErr | FCancelled.
+(* pending | result None | exception ConnectionError | cancelled (Future.cancel(); only the unshielded variant of
+   model/AdapterCancel.v ever produces it: no step of this file cancels a future) *)
 
 Definition fstate_eqb (a b : fstate) : bool :=
-  match a, b with FPending, FPending | FOk, FOk | FErr, FErr => true | _, _ => false end.
+  match a, b with FPending, FPending | FOk, FOk | FErr, FErr | FCancelled, FCancelled => true | _, _ => false end.
 
 (* exception kinds that can escape a step *)
 Definition X_INVALID_STATE : Z := 1.   (* asyncio.InvalidStateError: future resolved twice *)
@@ -444,7 +446,7 @@ Definition tk_op (t : list Z) : option (op * list Z) :=
   | _ => None
   end.
 
-Definition out_fstate (f : fstate) : Z := match f with FPending => 0 | FOk => 1 | FErr => 2 end.
+Definition out_fstate (f : fstate) : Z := match f with FPending => 0 | FOk => 1 | FErr => 2 | FCancelled => 3 end.
 
 Fixpoint out_readers (l : list reader) : list Z :=
   match l with
